@@ -26,28 +26,28 @@ type acceptSpec struct {
 // authenticating external calls: a nil error / true result means the input was
 // authenticated by the standard library.
 var extAuthErr = map[string]bool{
-	"(crypto/cipher.AEAD).Open":  true,
-	"crypto/rsa.VerifyPKCS1v15":  true,
-	"crypto/rsa.VerifyPSS":       true,
+	"(crypto/cipher.AEAD).Open": true,
+	"crypto/rsa.VerifyPKCS1v15": true,
+	"crypto/rsa.VerifyPSS":      true,
 }
 var extAuthBool = map[string]bool{
-	"crypto/ecdsa.VerifyASN1":  true,
-	"crypto/ecdsa.Verify":      true,
-	"crypto/ed25519.Verify":    true,
-	"crypto/hmac.Equal":        true,
-	"bytes.Equal":              true, // public-value comparison (signatures): full-length by definition
+	"crypto/ecdsa.VerifyASN1": true,
+	"crypto/ecdsa.Verify":     true,
+	"crypto/ed25519.Verify":   true,
+	"crypto/hmac.Equal":       true,
+	"bytes.Equal":             true, // public-value comparison (signatures): full-length by definition
 }
 
 // interface methods whose contract is "nil error only for authentic input"
 // (every module implementer is itself an obligation of its own property).
 var ifaceAuth = map[string]bool{
-	"(" + core.ModPath + "/tink.AEAD).Decrypt":                                   true,
-	"(" + core.ModPath + "/tink.AEADWithContext).DecryptWithContext":             true,
-	"(" + core.ModPath + "/tink.MAC).VerifyMAC":                                  true,
-	"(" + core.ModPath + "/tink.Verifier).Verify":                                true,
-	"(" + core.ModPath + "/tink.DeterministicAEAD).DecryptDeterministically":     true,
-	"(" + core.ModPath + "/tink.HybridDecrypt).Decrypt":                          true,
-	"(" + core.ModPath + "/aead/subtle.INDCPACipher).Decrypt":                    false,
+	"(" + core.ModPath + "/tink.AEAD).Decrypt":                               true,
+	"(" + core.ModPath + "/tink.AEADWithContext).DecryptWithContext":         true,
+	"(" + core.ModPath + "/tink.MAC).VerifyMAC":                              true,
+	"(" + core.ModPath + "/tink.Verifier).Verify":                            true,
+	"(" + core.ModPath + "/tink.DeterministicAEAD).DecryptDeterministically": true,
+	"(" + core.ModPath + "/tink.HybridDecrypt).Decrypt":                      true,
+	"(" + core.ModPath + "/aead/subtle.INDCPACipher).Decrypt":                false,
 }
 
 // authFact: the fact establishes authenticity directly (comparison of a
@@ -738,9 +738,9 @@ const adapterWhy = "keyset-level legacy adapter: it strips len(prefix) bytes wit
 
 // keysetAdapters: the adapter types built only inside the keyset factories.
 var keysetAdapters = map[string]string{
-	"aead.fullAEADPrimitiveAdapter":      adapterWhy,
-	"daead.fullDAEADPrimitiveAdapter":    adapterWhy,
-	"hybrid.fullHybridDecryptAdapter":    adapterWhy,
+	"aead.fullAEADPrimitiveAdapter":   adapterWhy,
+	"daead.fullDAEADPrimitiveAdapter": adapterWhy,
+	"hybrid.fullHybridDecryptAdapter": adapterWhy,
 }
 
 // localPrefixCheck: the function itself compares the input's leading bytes
